@@ -19,7 +19,8 @@ import (
 
 // types the generic decode model leaves out: they are decoded after a canonicalisation step of their own
 // (c09.decode covers them) or are extension maps (moved under "#extensions" by processExtensions)
-var c09LoadSkip = map[string]bool{"UlimitsConfig": true, "SSHKey": true, "SSHConfig": true, "EnvFile": true, "Extensions": true}
+// (UlimitsConfig is in scope since round 5: `decodeDM_Ulimits` models its DecodeMapstructure as Transform calls it)
+var c09LoadSkip = map[string]bool{"SSHKey": true, "SSHConfig": true, "EnvFile": true, "Extensions": true}
 
 // stripSkipped resets every field whose type is in c09LoadSkip (recursively), so the value is in the model's scope
 func stripSkipped(v reflect.Value) { stripSkippedWith(v, c09LoadSkip) }
@@ -63,6 +64,9 @@ func stripSkippedWith(v reflect.Value, skip map[string]bool) {
 	}
 }
 
+// c09Absent marks "key not present" in the small-scope enumeration of ulimit mappings
+type c09Absent struct{}
+
 func realLoad(raw json.RawMessage) any {
 	var a corrArgs
 	if err := json.Unmarshal(raw, &a); err != nil {
@@ -105,7 +109,7 @@ func realLoadExt(raw json.RawMessage) any {
 }
 
 // the decode scope with extension maps kept
-var c09LoadSkipKeepExt = map[string]bool{"UlimitsConfig": true, "SSHKey": true, "SSHConfig": true, "EnvFile": true}
+var c09LoadSkipKeepExt = map[string]bool{"SSHKey": true, "SSHConfig": true, "EnvFile": true}
 
 func init() {
 	core.Register("c09.loadext", &core.CheckDef{Real: realLoadExt, DriverOp: "c09.loadext", Judge: judgeCorr("extensions + generic decode")})
@@ -157,6 +161,38 @@ func runC09Load(ctx *core.Ctx) {
 			n = []string{"ServiceConfig", "BuildConfig", "DeployConfig", "NetworkConfig"}[ctx.Rng.Intn(4)]
 		}
 		add(n, populate(ctx.Rng, ms[n], 2+ctx.Rng.Intn(3), []float64{0.2, 0.5, 0.8}[ctx.Rng.Intn(3)]), "random")
+	}
+	// UlimitsConfig.DecodeMapstructure alone (no schema, no transformUlimits): every node kind as the value itself, as
+	// `soft` and as `hard` (each also absent), alone and inside the map[string]*UlimitsConfig of a service — every branch of
+	// `decodeDM_Ulimits` / `ulimitKey`
+	{
+		opts := []any{c09Absent{}}
+		for _, k := range core.Kinds {
+			opts = append(opts, core.KindValue(k, ctx.Rng))
+		}
+		opts = append(opts, 0, -1, 65535)
+		for _, v := range opts[1:] {
+			ctx.Count("load:ulimits-dm:top")
+			ctx.Add("c09.load", corrArgs{Type: "UlimitsConfig", V: core.EncodeVal(normAny(v))})
+			ctx.Count("load:ulimits-dm:in-service")
+			ctx.Add("c09.load", corrArgs{Type: "ServiceConfig", V: core.EncodeVal(normAny(map[string]any{"ulimits": map[string]any{"nofile": v}}))})
+		}
+		for _, so := range opts {
+			for _, ha := range opts {
+				m := map[string]any{}
+				if _, absent := so.(c09Absent); !absent {
+					m["soft"] = so
+				}
+				if _, absent := ha.(c09Absent); !absent {
+					m["hard"] = ha
+				}
+				if ctx.Rng.Intn(4) == 0 {
+					m["single"] = 7 // ignored by the mapping form
+				}
+				ctx.Count("load:ulimits-dm:pair")
+				ctx.Add("c09.load", corrArgs{Type: "UlimitsConfig", V: core.EncodeVal(normAny(m))})
+			}
+		}
 	}
 	// the same with extension attributes kept: real renderings carrying x- keys → processExtensions → Transform
 	addExt := func(n string, v reflect.Value) {
